@@ -807,6 +807,7 @@ func init() {
 	register(&checkDef{prop: "C15", parts: []part{
 		{name: "sim_bounded_carrier", gen: genMixedTermBounded, monitors: []Monitor{monCarrierUse}, labels: commonLabels, nontrivial: ntCarrierUse, quick: 400, thorough: 12000},
 		{name: "stress", gen: genStress, exec: execStress, monitors: []Monitor{monC15}, labels: commonLabels, nontrivial: ntStress, quick: 150, thorough: 6000, race: true, procs: 16, shards: 4},
+		{name: "stress_grpc", gen: genStressGRPC, exec: execStress, monitors: []Monitor{monC15}, labels: commonLabels, nontrivial: ntStress, quick: 150, thorough: 6000, race: true, procs: 16, shards: 4},
 	},
 		assumptions: []string{"the race detector judges only accesses that actually occur in a run; this is dynamic exploration under real parallelism"},
 		rule: "stress engine: rapid-generated concurrent programs (2-8 RPCs started concurrently, a sender and a receiver goroutine per RPC on both ends, readers of Header/Trailer and of grpc.Header/grpc.Trailer targets right after their completion signal, cancellations racing with completion, Close / Stop / GracefulStop / InitiateShutdown / carrier break / new tunnels / registry queries fired mid-run from other goroutines, delay injection at up to four yield points) run free on 16 Ps in a binary built with -race; oracle: zero race reports, zero panics, no hang, message integrity; non-trivial = at least two RPCs or a teardown event overlapped the run"})
